@@ -1,15 +1,20 @@
 """C22 - client connections from blocked address classes are refused.
 
 Decided:
-  R22.1 decision table of ``Block.client_connected`` by abstract evaluation of its AST over
-        {address kind: IPv4, plain IPv6, IPv4-mapped IPv6} x {is_loopback} x {every ProxyMode subclass of mode_specs.py}
-        x {block_private} x {is_private} x {block_global} x {is_global}:
+  R22.1 decision table of ``Block.client_connected`` by *interpreting* the method (mitmlint.pyint via the LayerInterp harness: helper
+        functions / methods, loops over rule tables, match, getattr are all just Python) over an abstract ``ipaddress`` module:
+        {address kind: IPv4, plain IPv6, IPv4-mapped IPv6; the IPv6 kinds with and without zone id} x {is_loopback} x
+        {every ProxyMode subclass of mode_specs.py} x {block_private} x {is_private} x {block_global} x {is_global}:
         ``client.error`` ends up set (truthy)  <=>  not (loopback or LocalMode) and ((block_private and private) or
         (block_global and global)); the classification attributes are read from the address obtained from
-        ``client.peername[0]`` (zone id stripped or left to ``ipaddress``) *after* unwrapping ``ipv4_mapped``; no path raises.
-  R22.2 ``ConnectionHandler.handle_client``: the ClientConnectedHook is awaited first, then ``client.error`` is tested; a
-        set error closes the writer and never reaches ``server_event`` / ``handle_connection``; ``events.Start()`` is
-        delivered to the layer stack nowhere else in proxy/server.py.
+        ``client.peername[0]`` (zone id stripped or left to ``ipaddress``) *after* unwrapping ``ipv4_mapped`` (the abstract
+        wrapper object reports every classification read and answers it negated); no path raises.  A decision that depends on
+        anything outside this domain (another address attribute, another option) is not modelled (AnalysisError, never a guess).
+  R22.2 ``ConnectionHandler.handle_client`` (helper methods inlined; shared value-based projection _helpers_B.HandleClientSpec):
+        the ClientConnectedHook is awaited first, then ``client.error`` is tested - directly, negated, via bool() / ``is None`` or
+        through a local, as long as the attribute is *read* after the hook was awaited; a set error closes the writer and never
+        reaches ``server_event`` / ``handle_connection``; ``events.Start()`` is delivered to the layer stack from nowhere else in
+        proxy/server.py (handle_client or a helper called only from it).
   R22.3 registration: ``Block()`` is in ``default_addons()`` and implements the method name mitmproxy derives from
         ``ClientConnectedHook``.
   R22.4 the same decision, extracted by interpreting the method's AST (mitmlint.pyint, ``ipaddress`` as trusted library) on
@@ -32,23 +37,20 @@ from ..core import norm
 from ..model import attr_chain
 from ..model import last_attr
 from ..model import walk_in_order
-from ..paths import C
-from ..paths import GenericSpec
-from ..paths import is_const
-from ..paths import traces_of
-from ..paths import UNKNOWN
 from ..selftest import Mutant
+from ._helpers_B import handle_client_paths
+from ._helpers_B import only_reachable_from
+from ._helpers_C import CachedModel
 from ._helpers_C import check_hook_naming
-from ._helpers_C import class_isa
 from ._helpers_C import default_addon_order
 from ._helpers_C import hook_name
-from ._helpers_C import is_obj
-from ._helpers_C import isinstance_targets
+from ._helpers_C import LayerInterp
+from ._helpers_C import Opaque
+from ._helpers_C import OpenRec
+from ._helpers_C import Raised
+from ._helpers_C import Rec
 from ._helpers_C import mode_classes
 from ._helpers_C import MODE_SPECS
-from ._helpers_C import OBJ
-from ._helpers_C import run_cell
-from ._helpers_C import StrictSpec
 
 PROP = "C22"
 REG = {
@@ -67,129 +69,98 @@ BLOCK = "mitmproxy/addons/block.py"
 SERVER = "mitmproxy/proxy/server.py"
 HOOKF = "mitmproxy/proxy/server_hooks.py"
 
-KINDS = ("v4", "v6", "v6mapped")
+KINDS = ("v4", "v6", "v6z", "v6mapped", "v6mappedz")  # z: the peer name carries a zone id ("fe80::1%eth0")
 CLASSIFIERS = ("is_loopback", "is_private", "is_global")
-SPLITTERS = {"split": "split", "rsplit": "split", "partition": "partition"}
+HOST4, HOST6, ZONE = "192.0.2.7", "2001:db8::7", "eth0"  # spellings only (they survive strip()/lower()): what matters is which part reaches ip_address()
 
 
-class BlockSpec(StrictSpec):
-    """Abstract values:
-    OBJ('client') the hook argument; OBJ('peername'); OBJ('str','raw'|'noscope'|'zone') strings derived from peername[0];
-    OBJ('parts', how); OBJ('addr', kind) with kind in v4 | v6 | v6mapped | v4u (the unwrapped IPv4 of a mapped address).
-    """
+class _World:
+    """One cell of the abstract domain + what the interpreted method did with the address objects."""
 
-    def __init__(self, model, client_param: str, cell: dict):
-        super().__init__()
-        self.model = model
-        self.client = client_param
+    def __init__(self, cell):
         self.cell = cell
+        self.problems: list[str] = []
 
-    # -- inputs
-    def atom(self, expr, st, depth):
-        ch = attr_chain(expr)
-        if ch:
-            parts = ch.split(".")
-            if ch == f"{self.client}.peername":
-                return OBJ("peername")
-            if ch == f"{self.client}.proxy_mode":
-                return OBJ("mode", self.cell["mode"])
-            if parts[-1] == "options" and parts[0] != self.client:
-                return OBJ("options")
-        if isinstance(expr, ast.Attribute):
-            base = self.value(expr.value, st, depth)
-            if is_obj(base, "options"):
-                if expr.attr in ("block_private", "block_global"):
-                    return C(self.cell[expr.attr])
-                raise AnalysisError(f"Block.client_connected: decision depends on an unmodelled option {norm(expr)}")
-            if is_obj(base, "addr"):
-                kind = base[2]
-                if expr.attr in CLASSIFIERS:
-                    if kind == "v6mapped":
-                        self.problems.append(
-                            f".{expr.attr} is read from the IPv4-mapped IPv6 wrapper instead of the embedded IPv4 address"
-                        )
-                    return C(self.cell[expr.attr])
-                if expr.attr == "ipv4_mapped":
-                    if kind == "v6mapped":
-                        return OBJ("addr", "v4u")
-                    if kind == "v6":
-                        return C(None)
-                    self.problems.append(".ipv4_mapped is read from an IPv4Address (AttributeError: the hook crashes, nothing is refused)")
-                    return C(None)
-                if expr.attr == "version":
-                    return C(4 if kind in ("v4", "v4u") else 6)
-                raise AnalysisError(f"Block.client_connected: unmodelled address attribute {norm(expr)}")
-        if isinstance(expr, ast.Subscript):
-            base = self.value(expr.value, st, depth)
-            try:
-                idx = C(ast.literal_eval(expr.slice))
-            except (ValueError, TypeError, SyntaxError):
-                idx = self.value(expr.slice, st, depth)
-            if is_obj(base, "peername"):
-                if idx == C(0):
-                    return OBJ("str", "raw")
-                raise AnalysisError(f"Block.client_connected: unmodelled peername element {norm(expr)}")
-            if is_obj(base, "parts"):
-                if idx == C(0):
-                    return OBJ("str", "noscope")
-                if is_const(idx):
-                    return OBJ("str", "zone")
-                raise AnalysisError(f"Block.client_connected: unmodelled index {norm(expr)}")
-        if isinstance(expr, ast.Call):
-            f = expr.func
-            name = last_attr(f)
-            if isinstance(f, ast.Attribute) and name in SPLITTERS:
-                base = self.value(f.value, st, depth)
-                if is_obj(base, "str") and base[2] == "raw":
-                    if not (expr.args and isinstance(expr.args[0], ast.Constant) and expr.args[0].value == "%"):
-                        raise AnalysisError(f"Block.client_connected: unmodelled separator in {norm(expr)}")
-                    return OBJ("parts", SPLITTERS[name])
-            if name == "ip_address" and len(expr.args) == 1:
-                a = self.value(expr.args[0], st, depth)
-                if is_obj(a, "str"):
-                    if a[2] == "zone":
-                        self.problems.append("ip_address() is applied to the zone id / a wrong element of the split peername, not to the address")
-                    return OBJ("addr", self.cell["kind"])
-                raise AnalysisError(f"Block.client_connected: ip_address() of an unmodelled value {norm(expr)}")
-            if isinstance(f, ast.Name) and f.id == "getattr" and len(expr.args) == 3:
-                base = self.value(expr.args[0], st, depth)
-                if is_obj(base, "addr") and isinstance(expr.args[1], ast.Constant) and expr.args[1].value == "ipv4_mapped":
-                    dflt = self.value(expr.args[2], st, depth)
-                    if base[2] == "v6mapped":
-                        return OBJ("addr", "v4u")
-                    if base[2] == "v6":
-                        return C(None)
-                    return dflt
-        return None
 
-    def bind_tuple(self, target, v, stmt, st, depth):
-        if is_obj(v, "parts") and v[2] == "partition" and len(target.elts) == 3 and all(isinstance(e, ast.Name) for e in target.elts):
-            st = st.set(f"{depth}:{target.elts[0].id}", OBJ("str", "noscope"))
-            st = st.set(f"{depth}:{target.elts[1].id}", UNKNOWN)
-            return st.set(f"{depth}:{target.elts[2].id}", OBJ("str", "zone"))
-        return super().bind_tuple(target, v, stmt, st, depth)
+class _AbsAddress:
+    """Abstract ``ipaddress`` object: the three classification attributes are the free booleans of the cell.  ``role``:
+    'plain' (the address itself), 'wrapper' (an IPv4-mapped IPv6 address: classifying *it* is the defect of R22.1 - its answers are
+    the negated ones, so that a decision taken on them shows in the table as well), 'embedded' (the IPv4 address inside)."""
 
-    def decide_isinstance(self, cond, st, depth):
-        v = self.value(cond.args[0], st, depth)
-        names = isinstance_targets(cond)
-        if is_obj(v, "addr"):
-            is6 = v[2] in ("v6", "v6mapped")
-            known = {"IPv6Address": is6, "IPv4Address": not is6}
-            if any(n not in known for n in names):
-                raise AnalysisError(f"Block.client_connected: unmodelled address class in {norm(cond)}")
-            return any(known[n] for n in names)
-        if is_obj(v, "mode"):
-            return any(class_isa(self.model, MODE_SPECS, v[2], n) for n in names)
-        return None
+    version = 0
 
-    # -- effects
-    def write_event(self, target, value, stmt, st, depth):
-        if attr_chain(target) == f"{self.client}.error":
-            return ("error:=", value)
-        raise AnalysisError(f"Block.client_connected: unmodelled write {norm(stmt)}")
+    def __init__(self, world, role):
+        object.__setattr__(self, "_w", world)
+        object.__setattr__(self, "_role", role)
 
-    def after_write(self, target, v, st, depth):
-        return st.set("client.error", v)
+    def _flag(self, name):
+        v = self._w.cell[name]
+        if self._role == "wrapper":
+            self._w.problems.append(f".{name} is read from the IPv4-mapped IPv6 wrapper instead of the embedded IPv4 address")
+            return not v
+        return v
+
+    is_loopback = property(lambda self: self._flag("is_loopback"))
+    is_private = property(lambda self: self._flag("is_private"))
+    is_global = property(lambda self: self._flag("is_global"))
+
+    def __getattr__(self, name):
+        if name.startswith("__"):
+            raise AttributeError(name)
+        if name == "ipv4_mapped":  # only IPv6Address has it: unguarded the hook crashes (shows as `raises AttributeError` in the table)
+            raise AttributeError(name)
+        return Opaque(f"address.{name}")  # may be logged; a decision on it is outside the table (AnalysisError in LayerInterp)
+
+    def __setattr__(self, name, value):
+        raise AnalysisError(f"Block.client_connected: write to an address object (.{name})")
+
+    def __repr__(self):
+        return f"<abstract IPv{self.version} address ({self._role})>"
+
+    __str__ = __repr__
+
+    def __format__(self, spec):
+        return repr(self)
+
+
+class _AbsV4(_AbsAddress):
+    version = 4
+
+
+class _AbsV6(_AbsAddress):
+    version = 6
+
+    @property
+    def ipv4_mapped(self):
+        return _AbsV4(self._w, "embedded") if self._role == "wrapper" else None
+
+
+class _AbsIpaddress:
+    """The part of the ``ipaddress`` module the decision may use, over the abstract domain."""
+
+    IPv4Address = _AbsV4
+    IPv6Address = _AbsV6
+
+    def __init__(self, world):
+        self._w = world
+
+    def ip_address(self, text):
+        w = self._w
+        kind = w.cell["kind"]
+        host = HOST4 if kind == "v4" else HOST6
+        if not isinstance(text, str):
+            raise AnalysisError(f"Block.client_connected: ip_address() of an unmodelled value {text!r}")
+        if text not in (host, f"{host}%{ZONE}") or (text != host and not kind.endswith("z")):
+            w.problems.append("ip_address() is applied to the zone id / a wrong element of the split peername, not to the address")
+            raise Raised("ValueError", f"{text!r} does not appear to be an IPv4 or IPv6 address")
+        if kind == "v4":
+            return _AbsV4(w, "plain")
+        return _AbsV6(w, "wrapper" if kind.startswith("v6mapped") else "plain")
+
+    ip_address._abstract_ok = True  # (LayerInterp: may be handed abstract values)
+
+    def __getattr__(self, name):
+        raise AnalysisError(f"Block.client_connected: ipaddress.{name} is not part of the abstract address domain")
 
 
 def expected_refusal(cell) -> bool:
@@ -198,40 +169,57 @@ def expected_refusal(cell) -> bool:
     return bool((cell["block_private"] and cell["is_private"]) or (cell["block_global"] and cell["is_global"]))
 
 
-def r22_1(ctx, fn):
-    m = ctx.model
-    params = [a.arg for a in fn.args.args]
-    ctx.require(len(params) == 2 and params[0] == "self", f"Block.client_connected has an unexpected signature {params}")
-    client = params[1]
+def _run_hook(ctx, interp, meth, peer, mode, anc, bp, bg):
+    """Interpret Block.<meth>(client) once -> True/False (client.error set?) | 'raises X'"""
+    interp.overrides[("mitmproxy/ctx.py", "options")] = OpenRec("Options", _name="ctx.options", block_private=bp, block_global=bg)
+    client = OpenRec("Client", _bases=("Connection",), _name="client", peername=(peer, 51234), sockname=("192.0.2.1", 8080),
+                     proxy_mode=Rec(mode, _bases=tuple(anc[1:])), error=None)
+    interp.steps = 0
+    try:
+        interp.method(Rec("Block", _impl=(BLOCK, "Block")), meth, client)
+        return bool(client.error)
+    except Raised as r:
+        return f"raises {r.name}"
+
+
+def r22_1(ctx, meth):
+    """the decision table of the hook by *interpreting* it (any pure Python: helpers, loops over rule tables, match, getattr ...) over
+    the abstract address domain above"""
     modes = mode_classes(ctx)
     ctx.require("LocalMode" in modes, "mode_specs.LocalMode vanished")
-    StrictSpec().vet(fn)
+    fn = ctx.model.func(BLOCK, f"Block.{meth}")
+    params = [a.arg for a in fn.args.args]
+    ctx.require(len(params) == 2 and params[0] == "self", f"Block.{meth} has an unexpected signature {params}")
+    ancs = {mode: [c.name for _, c in ctx.model.mro(MODE_SPECS, mode)] for mode in modes}
     mism: dict = {}
     probs: dict = {}
     n = 0
+    cm = CachedModel(ctx.model)
     for kind in KINDS:
-        for mode in modes:
-            for lb, bp, pr, bg, gl in itertools.product((False, True), repeat=5):
-                cell = {"kind": kind, "mode": mode, "is_loopback": lb, "block_private": bp, "is_private": pr, "block_global": bg, "is_global": gl}
-                spec = BlockSpec(m, client, cell)
-                how, st = run_cell(spec, fn, {client: OBJ("client")})
-                n += 1
-                for p in spec.problems:
-                    probs.setdefault(p, cell)
-                if how != "return":
-                    mism.setdefault(("raises", how), cell)
-                    continue
-                v = st.get("client.error", C(None))
-                t = spec.truthy(v)
-                if t is None:
-                    raise AnalysisError(f"Block.client_connected: value written to client.error is not modelled ({v})")
-                exp = expected_refusal(cell)
-                if t != exp:
-                    mism.setdefault((f"refused={t}", f"expected={exp}"), cell)
-                if n in (1, 300, 700):
-                    ctx.sample({"cell": cell, "refused": t})
+        peer = (HOST4 if kind == "v4" else HOST6) + (f"%{ZONE}" if kind.endswith("z") else "")
+        for lb, pr, gl in itertools.product((False, True), repeat=3):
+            cell0 = {"kind": kind, "is_loopback": lb, "is_private": pr, "is_global": gl}
+            world = _World(cell0)
+            interp = LayerInterp(cm, trusted_modules={"ipaddress": _AbsIpaddress(world)})
+            for mode in modes:
+                for bp, bg in itertools.product((False, True), repeat=2):
+                    cell = dict(cell0, mode=mode, block_private=bp, block_global=bg)
+                    world.cell = cell
+                    world.problems = []
+                    got = _run_hook(ctx, interp, meth, peer, mode, ancs[mode], bp, bg)
+                    n += 1
+                    exp = expected_refusal(cell)
+                    if got is not exp:
+                        for p in world.problems:  # (explains the differing cell; a read that decides nothing - logging - is harmless)
+                            probs.setdefault(p, cell)
+                        if isinstance(got, str):
+                            mism.setdefault(("raises", got), cell)
+                        else:
+                            mism.setdefault((f"refused={got}", f"expected={exp}"), cell)
+                    if n in (1, 300, 700):
+                        ctx.sample({"cell": cell, "refused": got})
     ctx.cells += n
-    where = (BLOCK, "Block.client_connected", fn)
+    where = (BLOCK, f"Block.{meth}", fn)
     for (obs, exp), cell in sorted(mism.items()):
         short = ",".join(f"{k}={cell[k]}" for k in ("is_loopback", "mode", "block_private", "is_private", "block_global", "is_global"))
         ctx.fail("R22.1", where, f"{obs} {exp} at {short}", f"decision table differs from the property (first differing cell, address kind {cell['kind']})", cell=cell)
@@ -243,52 +231,39 @@ def r22_1(ctx, fn):
     return n
 
 
-class HandleClientSpec(GenericSpec):
-    """Projects handle_client onto: hook construction, awaits, the client.error test, close(), layer-processing calls."""
-
-    PROC = ("server_event", "handle_connection", "handle_event")
-
-    def __init__(self):
-        def keep(ev):
-            if ev[0] == "call":
-                return ev[1].split(".")[-1] in ("ClientConnectedHook", "close", "abort") + self.PROC
-            if ev[0] == "await":
-                return ev[1].split(".")[-1] in ("handle_hook",) + self.PROC
-            return False
-
-        super().__init__(keep=keep, record_conds=True)
-
-    def cond_event(self, expr, value, st):
-        e = expr
-        if isinstance(e, ast.NamedExpr):
-            e = e.value
-        if attr_chain(e) == "self.client.error":
-            return ("cerr", value)
-        if isinstance(e, ast.Compare) and attr_chain(e.left) == "self.client.error" and len(e.ops) == 1:
-            c = e.comparators[0]
-            if isinstance(c, ast.Constant) and c.value is None and isinstance(e.ops[0], (ast.Is, ast.IsNot)):
-                return ("cerr", (not value) if isinstance(e.ops[0], ast.Is) else value)
-        if "client.error" in ast.unparse(expr):
-            raise AnalysisError(f"handle_client: unmodelled test of client.error: {norm(expr)}")
-        return None
+PROC = ("server_event", "handle_connection", "handle_event")
+CC_HOOK = "ClientConnectedHook"
 
 
 def r22_2(ctx):
-    fn = ctx.func(SERVER, "ConnectionHandler.handle_client")
+    # value-based projection of handle_client shared with C09 (_helpers_B.HandleClientSpec): helper methods are inlined; the test of
+    # client.error is recognised directly, negated, via bool() / `is (not) None` or through a local, and carries the position at which the
+    # attribute was *read* (a value read before the hook was awaited is stale)
+    fn, traces, eng = handle_client_paths(ctx, (CC_HOOK, "ClientDisconnectedHook"))
     where = (SERVER, "ConnectionHandler.handle_client", fn)
-    hooks = [c for c in walk_in_order(fn) if isinstance(c, ast.Call) and last_attr(c.func) == "ClientConnectedHook"]
-    ctx.require(len(hooks) == 1, f"handle_client constructs ClientConnectedHook {len(hooks)} times (expected once)")
-    ctx.require(len(hooks[0].args) == 1 and attr_chain(hooks[0].args[0]) == "self.client", f"ClientConnectedHook argument changed: {norm(hooks[0])}")
-    spec = HandleClientSpec()
-    traces, eng = traces_of(fn, spec)
+    mod = ctx.model.module(SERVER)
+    hooks = [c for c in walk_in_order(mod.tree) if isinstance(c, ast.Call) and last_attr(c.func) == CC_HOOK]
+    ctx.require(len(hooks) >= 1, "proxy/server.py no longer constructs ClientConnectedHook")
+    from ..model import enclosing_func
+    from ..model import qual_of
+    from ._helpers_B import local_defs
+
+    for h in hooks:
+        a = h.args[0] if len(h.args) == 1 and not h.keywords else None
+        if isinstance(a, ast.Name) and enclosing_func(h) is not None:  # `client = self.client` ... Hook(client)
+            defs = local_defs(enclosing_func(h), a.id)
+            ok = bool(defs) and all(attr_chain(d) == "self.client" for d in defs)
+        else:
+            ok = a is not None and attr_chain(a) == "self.client"
+        ctx.require(ok, f"ClientConnectedHook argument changed: {norm(h)}")
     ctx.paths += len(traces)
     ctx.require(len(traces) >= 2, "handle_client: path enumeration collapsed")
-    proc = lambda e: e[0] in ("call", "await") and e[1].split(".")[-1] in spec.PROC  # noqa: E731
+    proc = lambda e: e[0] in ("call", "await") and e[1].split(".")[-1] in PROC  # noqa: E731
     bad = {}
     n_refuse = n_accept = 0
     for tr, how, _ in traces:
-        ih = next((i for i, e in enumerate(tr) if e[0] == "call" and e[1].endswith("ClientConnectedHook")), -1)
-        ia = next((i for i, e in enumerate(tr) if i > ih >= 0 and e == ("await", "self.handle_hook")), -1)
+        ih = next((i for i, e in enumerate(tr) if e == ("hook", CC_HOOK)), -1)
+        ia = next((i for i, e in enumerate(tr) if i > ih >= 0 and e == ("hookawait", CC_HOOK)), -1)
         ic = next((i for i, e in enumerate(tr) if e[0] == "cerr"), -1)
         procs = [i for i, e in enumerate(tr) if proc(e)]
         if ic >= 0:
@@ -297,7 +272,7 @@ def r22_2(ctx):
         if procs and (ic < 0 or min(procs) < ic):
             bad.setdefault("layer processing starts without a preceding test of client.error", tr)
             continue
-        if ic >= 0 and not (0 <= ih < ia < ic):
+        if ic >= 0 and not (0 <= ih < ia < ic and tr[ic][2] > ia):
             bad.setdefault("client.error is tested before the client_connected hook has been awaited", tr)
             continue
         if ic < 0:
@@ -308,17 +283,18 @@ def r22_2(ctx):
             if not any(e[0] == "call" and e[1].split(".")[-1] in ("close", "abort") for e in tr[ic:]):
                 bad.setdefault("client.error set but the connection is not closed", tr)
     for msg, tr in sorted(bad.items()):
-        ctx.fail("R22.2", where, msg, "a refused client is not (only) refused", trace=[list(e) for e in tr])
+        ctx.fail("R22.2", where, msg, "a refused client is not (only) refused", trace=[[x if not isinstance(x, ast.AST) else norm(x)[:60] for x in e] for e in tr])
     ctx.require(n_refuse >= 1 and n_accept >= 1, "handle_client: no path tests client.error (anchor changed shape)")
     if not bad:
         ctx.ok("R22.2", f"handle_client: {len(traces)} paths; hook awaited < client.error test < processing; refusal paths close and never process")
-    # events.Start() is delivered to the layer stack only from the guarded place
-    mod = ctx.model.module(SERVER)
+    # events.Start() is delivered to the layer stack only from the guarded place (handle_client or a helper called from nowhere else)
     starts = [c for c in walk_in_order(mod.tree) if isinstance(c, ast.Call) and attr_chain(c.func) in ("events.Start", "Start")]
     ctx.require(len(starts) >= 1, "proxy/server.py no longer constructs events.Start()")
-    from ..model import qual_of
-
-    outside = [c for c in starts if qual_of(c) != "ConnectionHandler.handle_client"]
+    outside = []
+    for c in starts:
+        f = enclosing_func(c)
+        if not (f is fn or (f is not None and f.name in eng.inlined and only_reachable_from(ctx.model, SERVER, f, [fn]))):
+            outside.append(c)
     for c in outside:
         ctx.fail("R22.2", (SERVER, qual_of(c), c), "events.Start() outside handle_client", "the layer stack can be started on a path that does not test client.error")
     if not outside:
@@ -336,19 +312,13 @@ REPRESENTATIVES = [
 def r22_4(ctx, meth):
     import ipaddress
 
-    from ..pyint import Interp
-    from ..pyint import Raised
-    from ..pyint import Rec
-
-    class _Log:
-        def __getattr__(self, name):
-            return lambda *a, **k: None
-
     modes = mode_classes(ctx)
     fn = ctx.model.func(BLOCK, f"Block.{meth}")
     where = (BLOCK, f"Block.{meth}", fn)
     bad = {}
     n = 0
+    interp = LayerInterp(ctx.model, trusted_modules={"ipaddress": ipaddress})
+    ancs = {mode: [c.name for _, c in ctx.model.mro(MODE_SPECS, mode)] for mode in modes}
     for peer in REPRESENTATIVES:
         a = ipaddress.ip_address(peer.split("%")[0])
         if isinstance(a, ipaddress.IPv6Address) and a.ipv4_mapped:
@@ -356,16 +326,7 @@ def r22_4(ctx, meth):
         for mode in modes:
             for bp, bg in itertools.product((False, True), repeat=2):
                 want = False if (a.is_loopback or mode == "LocalMode") else bool((bp and a.is_private) or (bg and a.is_global))
-                it = Interp(ctx.model, trusted_modules={"ipaddress": ipaddress, "logging": _Log()})
-                it.overrides[("mitmproxy/ctx.py", "options")] = Rec("Options", block_private=bp, block_global=bg)
-                it.overrides[(BLOCK, "logger")] = _Log()
-                anc = [c.name for _, c in ctx.model.mro(MODE_SPECS, mode)]
-                client = Rec("Client", _name="client", peername=(peer, 51234), sockname=("192.0.2.1", 8080), proxy_mode=Rec(mode, _bases=tuple(anc[1:])), error=None)
-                try:
-                    it.method(Rec("Block", _impl=(BLOCK, "Block")), meth, client)
-                    got = bool(client.error)
-                except Raised as r:
-                    got = f"raises {r.name}"
+                got = _run_hook(ctx, interp, meth, peer, mode, ancs[mode], bp, bg)
                 n += 1
                 if got != want:
                     bad.setdefault((peer, got, want), f"mode={mode} block_private={bp} block_global={bg}")
@@ -396,9 +357,9 @@ def check(ctx):
               f"Block does not implement {meth}: the ClientConnectedHook never reaches it", desc=f"Block.{meth} <- ClientConnectedHook")
     ctx.expect_instances("R22.3", 2)
     if has:
-        fn = ctx.func(BLOCK, f"Block.{meth}")
+        ctx.func(BLOCK, f"Block.{meth}")
         ctx.guard(r22_4, ctx, meth)
-        if ctx.guard(r22_1, ctx, fn) is not None:
+        if ctx.guard(r22_1, ctx, meth) is not None:
             ctx.expect_instances("R22.1", 1)
     r22_2(ctx)
     ctx.expect_instances("R22.2", 2)
